@@ -44,7 +44,7 @@ def run(ctx):
             'INVARIANTS FwdInv RevInv RotInv LocInv BoxInv Emit\nCHECK_DEADLOCK FALSE\n')
     dense = 'FALSE' if ctx.quick else 'TRUE'
     parts = [(p, base % (p, dense)) for p in ('geo', 'loc', 'box')]
-    nrec = 120000 if ctx.quick else 3000000
+    nrec = 120000 if ctx.quick else 2000000
     rows, traces = vlib.lattice_pipeline(ctx, 'MC_Geocentric', parts, to_rows, 'drv_geoc', ['replay'],
                                          ['record', ctx.seed, nrec], 'Trace_Geocentric',
                                          flavour_record=None if ctx.quick else 'san', min_vectors=1000)
